@@ -126,31 +126,40 @@ func boundsObligations(w *World, p *Property) boundsResult {
 			fn := in.Parent()
 			ordinal[fn.Name()]++
 			k := fmt.Sprintf("%s/%s#%d", fn.Name(), map[string]string{"IsInBounds": "index", "IsSliceInBounds": "slice"}[s.kind], ordinal[fn.Name()])
-			paths, err := w.Paths(fn)
-			if err != nil {
-				r.undecided(k, pos, err.Error())
-				continue
-			}
+			// judged in every function whose exploration contains the operation
+			// (the function itself, or the callers a helper is expanded into)
 			n, okAll := 0, true
 			why, bad := "", ""
-			for _, pth := range paths {
-				for i := range pth.Events {
-					e := &pth.Events[i]
-					if e.Instr != in || (e.Kind != "index" && e.Kind != "slice") {
-						continue
-					}
-					n++
-					ok, reason := dischargeBounds(w, c, fn, pth, e)
-					if ok {
-						why = reason
-						if strings.HasPrefix(reason, "PRECONDITION") {
-							preconds = append(preconds, fn.Name()+": "+reason)
+			failed := false
+			for _, root := range w.rootsOf(fn) {
+				paths, err := w.Paths(root)
+				if err != nil {
+					r.undecided(k, pos, err.Error())
+					failed = true
+					break
+				}
+				for _, pth := range paths {
+					for i := range pth.Events {
+						e := &pth.Events[i]
+						if e.Instr != in || (e.Kind != "index" && e.Kind != "slice") {
+							continue
 						}
-					} else {
-						okAll = false
-						bad = reason
+						n++
+						ok, reason := dischargeBounds(w, c, root, pth, e)
+						if ok {
+							why = reason
+							if strings.HasPrefix(reason, "PRECONDITION") {
+								preconds = append(preconds, root.Name()+": "+reason)
+							}
+						} else {
+							okAll = false
+							bad = reason
+						}
 					}
 				}
+			}
+			if failed {
+				continue
 			}
 			switch {
 			case n == 0:
@@ -477,7 +486,10 @@ func dischargeBounds(w *World, c *simCtx, fn *ssa.Function, p *Path, e *Event) (
 	// recorder arrays: made with the core size in the constructor, never replaced
 	if b := stripConv(base); b.Op == "sel" && b.A[0].Op == "deref" && typeName(b.A[0].A[0].Ty) == "*StateRecorder" {
 		ix := stripConv(idx)
-		sizeOK := func(t *T) bool { t = stripConv(t); return t.Op == "sel" && t.A[0].Op == "deref" && typeName(t.Ty) == "Address" }
+		sizeOK := func(t *T) bool {
+			t = stripConv(t)
+			return t.Op == "sel" && t.A[0].Op == "deref" && typeName(t.Ty) == "Address"
+		}
 		switch {
 		case ix.Op == "rem" && sizeOK(ix.A[1]):
 			return true, "i % coresize into an array of coresize elements"
